@@ -95,5 +95,6 @@ func normalizeOffers(orig []string) (norm []string) {
 
 func normalizeOffer(orig string) string {
 	const maxParts = 2
-	return strings.SplitN(orig, ";", maxParts)[0]
+	// optional whitespace may precede the ';' (RFC 7231 section 3.1.1.1)
+	return strings.TrimSpace(strings.SplitN(orig, ";", maxParts)[0])
 }
